@@ -63,7 +63,14 @@ def expected_int(widths, vals):
 
 
 def check_modify(cls, widths, pre, post, vals, new, raw):
-    """histories: (construct | unpack) ; pack ; change ONE field ; pack  -> second output reflects exactly the change"""
+    """histories: (construct | unpack) ; [pack] ; change ONE field ; pack  -> the output reflects exactly the change"""
+    r = _check_modify(cls, widths, pre, post, vals, new, raw, True)
+    if r is None:
+        r = _check_modify(cls, widths, pre, post, vals, new, raw, False)
+    return r
+
+
+def _check_modify(cls, widths, pre, post, vals, new, raw, pack_first):
     k = sum(widths)
     nb = k // 8
     m = len(widths)
@@ -74,7 +81,8 @@ def check_modify(cls, widths, pre, post, vals, new, raw):
         else:
             p = cls.unpack(raw)
             cur = [getattr(p, "f%d" % i) for i in range(m)]
-        p.pack()
+        if pack_first:
+            p.pack()
         setattr(p, "f%d" % j, new)
         cur[j] = new
         try:
@@ -82,7 +90,7 @@ def check_modify(cls, widths, pre, post, vals, new, raw):
         except PacketError:
             return "FAIL sig=C07|pack-after-modification-raised|%s field=%d" % (widths, j)
         if big_endian(out, pre, nb) != expected_int(widths, cur):
-            return "FAIL sig=C07|stale-bits-after-modification|%s field=%d out=%r" % (widths, j, out)
+            return "FAIL sig=C07|stale-bits-after-modification|%s field=%d pack_first=%r out=%r" % (widths, j, pack_first, out)
     return None
 
 
